@@ -25,6 +25,11 @@ nx = lambda a, b, l: l.startswith('exc:')
 
 def check(run):
     R = run
+    R.rule('C14.shared', 'objects created once per class / per function definition (class-level attributes, parameter '
+           'defaults) are only read: no buffer, validator, poll object, header list or option dict is shared between '
+           'connections', 1)
+    from .common import shared_state
+    shared_state(R, 'C14.shared')
     R.rule('C14.before', 'in run(): _on_event(event, auto_pong) precedes `yield event` on every path of the feed loop', 2)
     R.rule('C14.branch', '_send_pong(event) iff event.name == "ping" and auto_pong; once; with event.data', 5)
     R.rule('C14.only', 'send_pong is called only by _send_pong, _send_pong only by _on_event; PONG frames only from '
@@ -143,6 +148,8 @@ def branch(R):
          '_send_pong(%s)' % (U(c.args[0]) if c.args else ''), func=f, node=c)
     inloop = any(fr.kind == 'loop' for fr in n.frames)
     R.ob('C14.branch', 'no loop around the pong', not inloop, 'pong sent in a loop', func=f, node=c)
+    from .common import event_names
+    event_names(R, 'C14.branch')      # event.name == 'ping' holds for Pings and for nothing else
     # _send_pong body
     q2 = S + '._send_pong'
     g2 = R.cfg(q2)
